@@ -58,7 +58,11 @@ func runC15(cfg *config) *Report {
 		n = 1500
 	}
 	for i := 0; i < n; i++ {
-		f, err := genFile(r, genOpts{maxCL: 2, maxBundles: 2, maxItems: 3, mutateP: 60, binary: i%3 == 0, b64: 30, zones: i%2 == 1})
+		o := genOpts{maxCL: 2, maxBundles: 2, maxItems: 3, mutateP: 60, binary: i%3 == 0, b64: 30, zones: i%2 == 1}
+		if i%5 == 2 {
+			o.kind = 1 + (i/5)%2 // forward and return files in turn: records 27 and 34 both occur
+		}
+		f, err := genFile(r, o)
 		if err != nil {
 			continue
 		}
@@ -70,6 +74,40 @@ func runC15(cfg *config) *Report {
 					for _, rd := range b.Returns {
 						for j := range rd.ReturnDetailAddendumB {
 							rd.ReturnDetailAddendumB[j].PayorBankBusinessDate = mkDate(1, 1, 1)
+						}
+					}
+				}
+			}
+		}
+		if i%5 == 2 {
+			// records 27 / 34 whose image reference key is longer than the length they declare (the writer cuts the key
+			// to that length; the member itself must survive the JSON trip as it is), or present with length 0
+			for ci := range f.CashLetters {
+				for _, b := range f.CashLetters[ci].Bundles {
+					for _, cd := range b.Checks {
+						for j := range cd.CheckDetailAddendumB {
+							ab := &cd.CheckDetailAddendumB[j]
+							old := *ab
+							ab.LengthImageReferenceKey = []string{"0008", "0000", "0003"}[r.Intn(3)]
+							ab.ImageReferenceKey = "IMG" + r.asciiStr(9+r.Intn(9), alnumChars)
+							if ab.Validate() != nil {
+								*ab = old
+							} else {
+								rep.count("key-longer-than-declared:27")
+							}
+						}
+					}
+					for _, rd := range b.Returns {
+						for j := range rd.ReturnDetailAddendumC {
+							ac := &rd.ReturnDetailAddendumC[j]
+							old := *ac
+							ac.LengthImageReferenceKey = []string{"0008", "0000", "0003"}[r.Intn(3)]
+							ac.ImageReferenceKey = "IMG" + r.asciiStr(9+r.Intn(9), alnumChars)
+							if ac.Validate() != nil {
+								*ac = old
+							} else {
+								rep.count("key-longer-than-declared:34")
+							}
 						}
 					}
 				}
